@@ -171,11 +171,6 @@ theorem total_13D (s : Text) : F13D.parse s ≠ .panic := by
   intro _ _
   simp
 
-theorem isAsciiT_drop (t : Text) (n : Nat) (h : isAsciiT t = true) : isAsciiT (t.drop n) = true := by
-  unfold isAsciiT at *
-  rw [List.all_eq_true] at *
-  intro c hc; exact h c (List.mem_of_mem_drop hc)
-
 theorem total_11RS (s : Text) : F11RS.parse s ≠ .panic := by
   unfold F11RS.parse
   split; · simp
